@@ -30,7 +30,8 @@ type c09Driver struct{}
 
 func init() { register("C09", c09Driver{}) }
 
-var c09Crafts = []string{"clock-decrease", "clock-drop", "no-name", "ctrl-char", "short-nonce", "clock-equal", "clock-add", "clock-swap", "clock-swap-2"}
+var c09Crafts = []string{"clock-decrease", "clock-drop", "no-name", "ctrl-char", "short-nonce", "clock-equal", "clock-add", "clock-swap", "clock-swap-2",
+	"meta-ctrl-key", "meta-ctrl-value", "meta-fine", "avatar-c1"}
 
 func (c09Driver) Gen(r *Rand, tier string) []json.RawMessage {
 	var res []json.RawMessage
@@ -95,11 +96,13 @@ func refCommits(repo repository.Repo, ref string) []string {
 }
 
 type c09Version struct {
-	Times map[string]uint64 `json:"times"`
-	Name  string            `json:"name"`
-	Login string            `json:"login"`
-	Email string            `json:"email"`
-	Nonce []byte            `json:"nonce"`
+	Times    map[string]uint64 `json:"times"`
+	Name     string            `json:"name"`
+	Login    string            `json:"login"`
+	Email    string            `json:"email"`
+	Nonce    []byte            `json:"nonce"`
+	Avatar   string            `json:"avatar_url"`
+	Metadata map[string]string `json:"metadata"`
 }
 
 func readVersionBlob(repo repository.RepoData, commit string) (map[string]interface{}, c09Version, error) {
@@ -166,6 +169,14 @@ func craftVersion(repo repository.ClockedRepo, ref, kind string) error {
 		m["name"] = "bad\u0007name"
 	case "short-nonce":
 		m["nonce"] = []byte("short")
+	case "meta-ctrl-key":
+		m["metadata"] = map[string]string{"key\u0000\u001b[2J": "value"}
+	case "meta-ctrl-value":
+		m["metadata"] = map[string]string{"key": "value\u0007\u0000"}
+	case "meta-fine": // valid: a value may span lines
+		m["metadata"] = map[string]string{"key": "first line\nsecond\tline"}
+	case "avatar-c1":
+		m["avatar_url"] = "http://example.com/a\u0085b\u009b2J.png"
 	}
 	data, err := json.Marshal(m)
 	if err != nil {
@@ -389,6 +400,23 @@ func (c09Driver) Run(raw json.RawMessage) Case {
 		}
 		return true
 	}
+	// metadata: keys are one line, values may span lines (the rule of operations' metadata)
+	safeMeta := func(m map[string]string) bool {
+		for k, v := range m {
+			if !safe(k) {
+				return false
+			}
+			for _, r := range v {
+				if r == '\n' || r == '\t' || r == '\r' {
+					continue
+				}
+				if r < 32 || (r >= 127 && r <= 159) {
+					return false
+				}
+			}
+		}
+		return true
+	}
 	var terms []string
 	tags := map[string]bool{}
 	for i, sp := range in.Idents {
@@ -405,7 +433,7 @@ func (c09Driver) Run(raw json.RawMessage) Case {
 			}
 			named := strings.TrimSpace(v.Name) != "" || strings.TrimSpace(v.Login) != ""
 			vs = append(vs, fmt.Sprintf("{| v_times := [%s]%%N; v_named := %s; v_safe := %s; v_nonce := %d |}",
-				strings.Join(ts, "; "), coqBool(named), coqBool(safe(v.Name) && safe(v.Login) && safe(v.Email)), len(v.Nonce)))
+				strings.Join(ts, "; "), coqBool(named), coqBool(safe(v.Name) && safe(v.Login) && safe(v.Email) && safe(v.Avatar) && safeMeta(v.Metadata)), len(v.Nonce)))
 		}
 		st := map[string]string{"new": "INew", "nothing": "INothing", "updated": "IUpdated", "invalid": "IInvalid", "missing": "IMissing", "error": "IError"}[status[i]]
 		ret := "None"
